@@ -209,7 +209,9 @@ pub fn run(p: &Params) -> Outcome {
                             b.push(1u128 << (64 - pos), 64);
                             b.push(1u128 << (32 - sigpos), 32);
                             b.push(1, 1);
-                            b.push(0, 200);
+                            for _ in 0..4 {
+                                b.push(0, 50);
+                            }
                             check_bytes(ctx, &crate::oracle::crc::frame(&b.into_bytes()), Some(&wt), "msm_frames_with_single_bit_masks");
                         }
                     }
